@@ -89,18 +89,111 @@ fn f64_case(ctx: &mut Ctx, v: f64) {
     } else { ctx.stat("f64_long_texts_oracle_only"); }
 }
 
+fn nesting(t: &Type) -> usize { match t { Type::Named(_) | Type::NonNullNamed(_) => 0, Type::List(i) | Type::NonNullList(i) => 1 + nesting(i) } }
+
+/// Display → Type::parse, compared with the model pipeline (tyText → lexer → parse_type → reference parser)
+fn type_case(ctx: &mut Ctx, t: &Type) {
+    let printed = t.to_string();
+    let depth = nesting(t);
+    let res = catch(|| Type::parse(&printed, "t.graphql"));
+    let out = match &res {
+        Err(p) => { ctx.fail("type-parse-panic", &printed, p); format!("{printed} PANIC -") }
+        Ok(Ok(back)) => format!("{printed} ok {}", crate::p29::enc_ty(back)),
+        Ok(Err(_)) => format!("{printed} err -"),
+    };
+    // the property itself, up to a bounded nesting depth (the recursion limit of the parser is 500)
+    if depth <= 400 {
+        match &res {
+            Ok(Ok(back)) if back == t => {}
+            Ok(Ok(back)) => ctx.fail("type-roundtrip", &printed, &format!("parsed back as {back}")),
+            Ok(Err(e)) => ctx.fail("type-roundtrip", &printed, &format!("does not parse: {}", e.to_string().lines().next().unwrap_or(""))),
+            Err(_) => {}
+        }
+    } else { ctx.stat("types_beyond_oracle_depth"); }
+    ctx.stat(&format!("type_depth_{}", match depth { 0 => "0", 1..=7 => "1-7", 8..=99 => "8-99", 100..=400 => "100-400", _ => "over400" }));
+    ctx.nontrivial(&printed);
+    ctx.case("typert", &[crate::p29::enc_ty(t)], &out);
+}
+
 fn type_cases(ctx: &mut Ctx) {
     let depth = if ctx.thorough { 7 } else { 6 };
     let types = crate::p29::all_types(depth, &["A", "b_1"]);
     ctx.stat_n("types_enumerated", types.len() as u64);
     for t in &types {
         let printed = t.to_string();
-        match Type::parse(&printed, "t.graphql") {
-            Ok(back) if &back == t => {}
-            Ok(back) => ctx.fail("type-roundtrip", &printed, &format!("parsed back as {back}")),
-            Err(e) => ctx.fail("type-roundtrip", &printed, &format!("does not parse: {}", e.to_string().lines().next().unwrap_or(""))),
-        }
         ctx.case("typrint", &[crate::p29::enc_ty(t)], &printed);
+        type_case(ctx, t);
+    }
+    // random deep types over several names, and nesting around the parser's recursion limit
+    let names = ["A", "b_1", "_", "Query", "x9", "__typename", "on", "null", "Z_"];
+    let wrap = |r: &mut Rng, d: usize| -> Type {
+        let n = Name::new(*r.pick(&names)).unwrap();
+        let mut t = if r.chance(1, 2) { Type::Named(n) } else { Type::NonNullNamed(n) };
+        for _ in 0..d { t = if r.chance(1, 2) { Type::List(Box::new(t)) } else { Type::NonNullList(Box::new(t)) }; }
+        t
+    };
+    let n = if ctx.thorough { 20_000 } else { 2_000 };
+    for _ in 0..n { let d = match ctx.rng.below(10) { 0..=5 => ctx.rng.below(12), 6..=8 => 8 + ctx.rng.below(60), _ => 60 + ctx.rng.below(200) }; let t = wrap(&mut ctx.rng, d); type_case(ctx, &t); }
+    for d in [398usize, 400, 498, 499, 500, 501, 502, 520] { let t = wrap(&mut ctx.rng, d); type_case(ctx, &t); }
+}
+
+/// `try_to_i32` on texts with IntValue syntax, against an independent wide-integer evaluation
+fn i32parse_case(ctx: &mut Ctx, text: &str) {
+    if !spec_int(text) { return; }
+    let Ok(iv) = serde_json::from_str::<IntValue>(&json_str(text)) else { ctx.fail("int-literal-vs-grammar", text, "valid IntValue text not deserializable"); return };
+    let got = iv.try_to_i32().ok();
+    // independent: sign and digits by hand, in i128 with saturation
+    let (neg, digits) = match text.strip_prefix('-') { Some(d) => (true, d), None => (false, text) };
+    let mut v: i128 = 0;
+    for b in digits.bytes() { v = (v * 10 + (b - b'0') as i128).min(1 << 100); }
+    if neg { v = -v; }
+    let want = if v >= i32::MIN as i128 && v <= i32::MAX as i128 { Some(v as i32) } else { None };
+    if got != want { ctx.fail("int-try-to-i32", text, &format!("try_to_i32 = {got:?}, value fits i32: {want:?}")); }
+    ctx.stat(if got.is_some() { "i32parse_ok" } else { "i32parse_overflow" });
+    ctx.nontrivial(text);
+    ctx.case("i32parse", &[enc(text)], &match got { Some(v) => format!("ok:{v}"), None => "err".to_string() });
+}
+
+fn i32parse_cases(ctx: &mut Ctx) {
+    for t in ["0", "-0", "1", "-1", "9", "10", "2147483647", "2147483648", "-2147483648", "-2147483649", "2147483646", "-2147483647",
+        "4294967296", "-4294967296", "9223372036854775807", "9223372036854775808", "99999999999999999999999999999999", "-99999999999999999999999999999999", "1000000000", "999999999", "-1000000000"] { i32parse_case(ctx, t); }
+    let mut p: i64 = 1;
+    for _ in 0..12 { for d in [-1i64, 0, 1] { i32parse_case(ctx, &(p + d).to_string()); i32parse_case(ctx, &(-(p + d)).to_string()); } p *= 10; }
+    let n = if ctx.thorough { 300_000 } else { 30_000 };
+    for _ in 0..n {
+        let len = 1 + ctx.rng.below(13);
+        let mut s = String::new();
+        if ctx.rng.chance(1, 2) { s.push('-'); }
+        for i in 0..len { let d = if i == 0 && len > 1 { 1 + ctx.rng.below(9) } else { ctx.rng.below(10) }; s.push((b'0' + d as u8) as char); }
+        i32parse_case(ctx, &s);
+        // around the i32 boundaries
+        let v = (ctx.rng.next() as i32) as i64 + [0i64, i32::MAX as i64, -(i32::MAX as i64)][ctx.rng.below(3)];
+        i32parse_case(ctx, &v.to_string());
+    }
+}
+
+/// the classes of finite f64 the stream is meant to cover (counted in the evidence)
+fn f64_classes(ctx: &mut Ctx) {
+    // signed zeros, extremes
+    for v in [0.0f64, -0.0, f64::MAX, f64::MIN, f64::MIN_POSITIVE, -f64::MIN_POSITIVE, 5e-324, -5e-324, f64::EPSILON, 1.0 + f64::EPSILON] { ctx.stat("f64_class:special"); f64_case(ctx, v); }
+    // every power of two, normal and subnormal, and its neighbours
+    for e in -1074..=1023i32 {
+        let v = 2f64.powi(e);
+        ctx.stat(if e < -1022 { "f64_class:subnormal_power_of_two" } else { "f64_class:power_of_two" });
+        f64_case(ctx, v); f64_case(ctx, -v);
+        f64_case(ctx, f64::from_bits(v.to_bits() + 1)); f64_case(ctx, f64::from_bits(v.to_bits().saturating_sub(1)));
+    }
+    // every power of ten that is finite
+    for e in -323..=308i32 { ctx.stat("f64_class:power_of_ten"); let v: f64 = format!("1e{e}").parse().unwrap(); f64_case(ctx, v); f64_case(ctx, -v); f64_case(ctx, v * 3.0); }
+    // random subnormals
+    let n = if ctx.thorough { 100_000 } else { 10_000 };
+    for _ in 0..n { ctx.stat("f64_class:random_subnormal"); let bits = ctx.rng.next() & ((1u64 << 52) - 1); let neg = ctx.rng.chance(1, 2); f64_case(ctx, f64::from_bits(bits | if neg { 1 << 63 } else { 0 })); }
+    // what the constructor does with non-finite input: not part of the property (finite f64 only); recorded
+    for v in [f64::NAN, f64::INFINITY, f64::NEG_INFINITY] {
+        match catch(|| FloatValue::from(v)) {
+            Err(_) => ctx.stat("f64_nonfinite:constructor_panics_debug_assert"),
+            Ok(fv) => { ctx.stat("f64_nonfinite:constructed"); if fv.try_to_f64().is_ok() { ctx.stat("f64_nonfinite:converts_back"); } }
+        }
     }
 }
 
@@ -124,11 +217,14 @@ pub fn run(ctx: &mut Ctx) {
     for v in [0.0, -0.0, 1.0, -1.0, 0.1, 0.5, 1e15, 1e16, 1e17, 1e21, 1e22, 1e300, f64::MAX, f64::MIN, f64::MIN_POSITIVE, 5e-324, 1e-7, 123456.789, 2f64.powi(53), 2f64.powi(53) + 2.0, 0.30000000000000004] { f64_case(ctx, v); }
     for _ in 0..n {
         let bits = ctx.rng.next();
+        ctx.stat("f64_class:random_bits");
         f64_case(ctx, f64::from_bits(bits));
         // moderate magnitudes: short decimal texts
         let m = (ctx.rng.next() % 2_000_000) as f64 / [1.0, 10.0, 100.0, 1000.0, 8.0, 3.0][ctx.rng.below(6)];
         let neg = ctx.rng.chance(1, 2);
         f64_case(ctx, if neg { -m } else { m });
     }
+    f64_classes(ctx);
+    i32parse_cases(ctx);
     type_cases(ctx);
 }
